@@ -208,7 +208,7 @@ func (tw *Twin) run(pkgPath string, rf *ReplayFile, replayPath string) (*NativeR
 }
 
 // compareRecord reports how a native run differs from the interpreter's record of the same path.
-func compareRecord(r PathRecord, nr *NativeResult) string {
+func compareRecord(r PathRecord, nr *NativeResult, props map[string]bool) string {
 	var diffs []string
 	if nr.Panic != "" {
 		diffs = append(diffs, "native panic: "+nr.Panic)
@@ -216,8 +216,16 @@ func compareRecord(r PathRecord, nr *NativeResult) string {
 	if nr.AssumeFail {
 		diffs = append(diffs, "native run failed an assumption")
 	}
-	if len(nr.Failed) > 0 {
-		diffs = append(diffs, "native run failed assertions "+strings.Join(nr.Failed, ","))
+	// only assertions of the property being checked count: the same harness carries other properties'
+	// assertions, which the symbolic run did not discharge on this path either
+	var failed []string
+	for _, f := range nr.Failed {
+		if props == nil || props[propOf(f)] {
+			failed = append(failed, f)
+		}
+	}
+	if len(failed) > 0 {
+		diffs = append(diffs, "native run failed assertions "+strings.Join(failed, ","))
 	}
 	if len(nr.Missing) > 0 {
 		diffs = append(diffs, "native run asked for variables the path did not create: "+strings.Join(nr.Missing, ","))
